@@ -132,6 +132,7 @@ func main() {
 	replicaScenario(rep, "wal", layout)
 	replicaHaltCatchUpScenario(rep, "rollback", layout)
 	replicaHaltCatchUpScenario(rep, "wal", layout)
+	replicaRecreateScenario(rep, layout)
 
 	rep.Finish()
 }
@@ -161,6 +162,9 @@ func replayFile(rep *core.Report, path string, layout sim.Layout) {
 		return
 	case "replica-apply":
 		replicaScenario(rep, f.Replay.Mode, layout)
+		return
+	case "replica-recreate":
+		replicaRecreateScenario(rep, layout)
 		return
 	case "replica-halt-catch-up":
 		replicaHaltCatchUpScenario(rep, f.Replay.Mode, layout)
